@@ -559,8 +559,8 @@ class FnBounds(object):
                 P = self.lin(c[0], st, pos)
                 pt = facts.ty(f, c[0])
                 if P is not None and is_ptr(pt) and ((pt.get("to") or {}).get("const")) and \
-                        not P.mentions(lambda a: a[0] in ("av", "phi", "ld")):
-                    a = ("mem", repr(P))
+                        not P.mentions(lambda a: a[0] == "av"):
+                    a = ("mem", repr(P), tuple(P.atoms()))
                     t = facts.ty(f, e)
                     if is_int(t) and is_unsigned(t) and t.get("w", 64) <= 16:
                         self.ub[a] = (1 << t["w"]) - 1
@@ -598,6 +598,18 @@ class FnBounds(object):
         if k == "CXXConstructExpr" and len(c) == 1:
             return self.lin(c[0], st, pos)
         if k == "ArraySubscriptExpr":
+            bt = facts.ty(f, c[0])
+            P0, I = self.lin(c[0], st, pos), self.lin(c[1], st, pos)
+            if P0 is not None and I is not None and is_ptr(bt) and ((bt.get("to") or {}).get("const")):
+                P = P0 + I.scale(self.elem_size(bt))
+                if not P.mentions(lambda a: a[0] == "av"):
+                    a = ("mem", repr(P), tuple(P.atoms()))
+                    t = facts.ty(f, e)
+                    if is_int(t) and is_unsigned(t) and t.get("w", 64) <= 16:
+                        self.ub[a] = (1 << t["w"]) - 1
+                    elif is_int(t) and not is_unsigned(t):
+                        self.signed.add(a)
+                    return atom(a)
             return self.opaque(e, "idx")
         return None
 
@@ -946,10 +958,19 @@ class FnBounds(object):
             if LA is None or LB is None:
                 continue
             if LA == atom(pa) or LB == atom(pa):
-                side, other, LO = (a, b, LB) if LA == atom(pa) else (b, a, LA)
+                side, other = (a, b) if LA == atom(pa) else (b, a)
+                # every phi that `side` already carries is replaced by the value it has on the other side
+                submap = {}
+                for pq in kill:
+                    vq_s, vq_o = val(side, pq), val(other, pq)
+                    if vq_s is not None and vq_o is not None and vq_s == atom(pq):
+                        submap[pq] = vq_o
                 for F in side.facts:
-                    if F.mentions(lambda at: at == pa):
-                        if self.prove(F.subst(pa, LO), other):
+                    if F.mentions(lambda at: at == pa) and F not in out:
+                        G = F
+                        for pq, vq in submap.items():
+                            G = G.subst(pq, vq)
+                        if self.prove(G, other):
                             out.add(F)
                 continue
             for (X, LX, Y, LY) in ((a, LA, b, LB), (b, LB, a, LA)):
@@ -1329,6 +1350,15 @@ class FnBounds(object):
                 return self.flush_pending(st)
             if l["k"] == "MemberExpr" and l.get("isfield"):
                 fa = ("fld", facts.expr_str(l))
+                if n["op"] == "-=" and f.get("rec") in (STREAM, OSTREAM) and fa == ("fld", "size_"):
+                    # the cursor's remaining-bytes counter must never wrap
+                    Rm = self.lin(n["c"][1], st, pos)
+                    if Rm is not None and self.prove(atom(fa) - Rm, st):
+                        self.record(n, "cursor-underflow", facts.expr_str(n), "ok", "%s <= size_ by the dominating guard" % Rm)
+                    else:
+                        self.record(n, "cursor-underflow", facts.expr_str(n), "violation",
+                                    "size_ -= %s is not dominated by a check that %s <= size_: the remaining-bytes counter wraps "
+                                    "and every later bounds check passes" % (Rm, Rm))
                 R = self.lin(n["c"][1], st, pos) if n["op"] == "=" else None
                 self.kill_atoms(st, lambda a: a == fa or (a[0] == "call" and "." not in a[1] and "->" not in a[1]))
                 tl = facts.ty(f, l)
